@@ -33,6 +33,9 @@ claimed = {
  "C12": ("typestate/pairing analysis on SSA (setup/defer-teardown pairing, set symmetry table, single filter funnel with dominance)",
          "Structural necessary conditions: single funnel behind the ignore filter, setup/teardown paired by defer on the same node and outside loops, every set filled by a Setup variant cleared by its Teardown variant under the same directive, IsEnable consults all sets with the rule. Decides that a directive's effect cannot outlive its statement/block; does not decide directive text parsing.",
          "trusts go/ssa; the directive→set table is transcribed from the property statement", "DESIGN.md §4 C12"),
+ "C17": ("pairing/typestate rules on SSA: canonicaliser requirement on the assigned-key set (same callee in IsAssigned/Assign/Unassign, who-may-touch), must-follow path analysis pairing Header.Del with Unassign and Header.Set/Add with Assign on the same key (canonical access paths), case-insensitive comparison rule for loops over canonical header keys, separator agreement",
+         "Structural necessary conditions of the header store laws: the set/not-set bookkeeping is keyed canonically like net/http; every VCL-visible delete un-assigns and every write assigns the same key on every path; wildcard matching compares canonical forms. Decides the keying/pairing shape for all histories and spellings; not the sub-field regular-expression algebra.",
+         "trusts go/ssa; scope of hdr.pair is interpreter/variable (the VCL-visible write paths)", "DESIGN.md §4 C17"),
  "C18": ("lockset analysis on SSA: lock dominance/extent in ServeHTTP, handler entry who-may-call, inter-procedural shared-write analysis for goroutines started in loops",
          "Structural necessary conditions of race freedom: the per-interpreter mutex dominates every per-request state access and is held to return; handlers enter only through ServeHTTP; no goroutine with several live instances reaches an unlocked write to shared memory. Decides lock shape for all interleavings at once; does not decide response equality with a serial order.",
          "trusts go/ssa and static call resolution inside the module; library code assumed not to write falco state", "DESIGN.md §4 C18"),
